@@ -236,6 +236,9 @@ func RunKvsConc(cfg SmallConcCfg, t *Trace, seg int) int {
 							key = keys[r.Intn(len(keys))]
 						}
 						v := 1 + int(atomic.AddInt32(&tag, 1))%250
+						if cfg.Seed%2 == 1 {
+							v = 1 + r.Intn(3) // few values: a put often carries the value the key already holds
+						}
 						e.Pairs = append(e.Pairs, [2]int{int(key), v})
 						pairs = append(pairs, kvs.KVPair{Key: key, Val: blockOf(v)})
 					}
